@@ -26,8 +26,8 @@ META = {
         'resized to (nfiber, npix); C16.TILING - spec_append allocates zeros of shape (nrows1+nrows2, max(npix1+nadd1, '
         'npix2+nadd2)), stores rows [0,nrows1) and [nrows1,nrows) with column slices of the sources\' own widths starting '
         'at nadd_i, at most one nadd_i non-zero with value |pixshift|, and has no return path that bypasses this. '
-        'C16.NO-MEMO - readspec and the file-location helpers it calls keep no module-level memo. C16.LOCKSTEP also: the request vectors are filled by position, never through a mask on the VALUE of another request vector; C16.ROWSEL also: on the znum path the row is exactly (fibre-1)*nper + znum - 1 (polynomial normal form over all reaching definitions). C16.PATH-KW - the per-file spec_path() call receives the topdir keyword that latest_mjd() honours; C16.LOGLAM-PAD - the zero-padded wavelength image is rebuilt from each row\'s COEFF0/COEFF1 over the padded width on every path; C16.KW-FORWARD - every keyword readspec reads from its ** dictionary is a parameter of every function without ** that the dictionary is handed to wholesale (readspec -> number_of_fibers / latest_mjd -> spec_path), by signature agreement along the call graph; C16.SCALAR-SLOT - number_of_fibers stores a scalar, not a mask selection, into each per-plate element (light types: loop index over range, subscript by a comparison mask); NOT decided: correctness of file location itself (spec_path, latest_mjd), optional files present for some plates only, the align arithmetic.'),
-    'floors': {'C16.KW-FORWARD': 2, 'C16.SCALAR-SLOT': 1, 'C16.PATH-KW': 1, 'C16.LOGLAM-PAD': 1, 'C16.INV-PERM': 3, 'C16.REORDER-ALL': 5, 'C16.LOCKSTEP': 6, 'C16.ROWSEL': 4, 'C16.LOGLAM': 3, 'C16.TILING': 6, 'C16.NO-MEMO': 3},
+        'C16.NO-MEMO - readspec and the file-location helpers it calls keep no module-level memo. C16.LOCKSTEP also: the request vectors are filled by position, never through a mask on the VALUE of another request vector; C16.ROWSEL also: on the znum path the row is exactly (fibre-1)*nper + znum - 1 (polynomial normal form over all reaching definitions). C16.PATH-KW - the per-file spec_path() call receives the topdir keyword that latest_mjd() honours; C16.LOGLAM-PAD - the zero-padded wavelength image is rebuilt from each row\'s COEFF0/COEFF1 over the padded width on every path; C16.JOIN - readspec joins the rows of successive files along the first axis (np.concatenate; np.append only with an axis); C16.KW-FORWARD - every keyword readspec reads from its ** dictionary is a parameter of every function without ** that the dictionary is handed to wholesale (readspec -> number_of_fibers / latest_mjd -> spec_path), by signature agreement along the call graph; C16.SCALAR-SLOT - number_of_fibers stores a scalar, not a mask selection, into each per-plate element (light types: loop index over range, subscript by a comparison mask); NOT decided: correctness of file location itself (spec_path, latest_mjd), optional files present for some plates only, the align arithmetic.'),
+    'floors': {'C16.JOIN': 3, 'C16.KW-FORWARD': 2, 'C16.SCALAR-SLOT': 1, 'C16.PATH-KW': 1, 'C16.LOGLAM-PAD': 1, 'C16.INV-PERM': 3, 'C16.REORDER-ALL': 5, 'C16.LOCKSTEP': 6, 'C16.ROWSEL': 4, 'C16.LOGLAM': 3, 'C16.TILING': 6, 'C16.NO-MEMO': 3},
 }
 
 SPEC1D = 'pydl/pydlspec2d/spec1d.py'
@@ -738,7 +738,30 @@ def check_kw_forward(ctx, repo):
     ctx.need(n >= 2, 'readspec: the forwarding of its ** dictionary was not found')
 
 
+def check_join(ctx, repo):
+    """C16.JOIN: the rows of successive plate files are joined along the first axis - np.concatenate (or vstack / an explicit axis).
+    np.append without an axis flattens both operands first, so a table column that holds a vector per fibre (plug-map MAG, THETA)
+    comes back one-dimensional, its values belonging to the wrong fibres."""
+    f = repo.func(SPEC1D, 'readspec')
+    ctx.cover(f)
+    n = 0
+    for c in walk_local(f.node):
+        if isinstance(c, ast.Call) and isinstance(c.func, ast.Attribute) and isinstance(c.func.value, ast.Name) and c.func.value.id in ('np', 'numpy'):
+            if c.func.attr == 'concatenate':
+                n += 1
+                ctx.check('C16.JOIN', True, f, c, 'readspec joins `%s` along the first axis' % src(c)[:60])
+            elif c.func.attr == 'append':
+                n += 1
+                has_axis = len(c.args) >= 3 or any(k.arg == 'axis' and not (isinstance(k.value, ast.Constant) and k.value.value is None) for k in c.keywords)
+                ctx.check('C16.JOIN', has_axis, f, c, 'readspec joins `%s` along an explicit axis' % src(c)[:60],
+                          msg='readspec joins the rows of successive files with `%s`: np.append without an axis flattens its operands, so a column that holds a '
+                              'vector per fibre comes back one-dimensional and row i no longer belongs to request i' % src(c)[:70].replace('\n', ' '),
+                          construct='np.append without axis in readspec')
+    ctx.need(n >= 3, 'readspec: the joins of successive files were not found')
+
+
 def run(ctx):
+    check_join(ctx, ctx.repo)
     check_kw_forward(ctx, ctx.repo)
     check_scalar_slot(ctx, ctx.repo)
     check_readspec(ctx, ctx.repo)
